@@ -88,7 +88,8 @@ def agg_case(draw, tier):
             "drop_at": draw(st.integers(0, n - 1)),
             "regime": regime,
             "icont": draw(st.sampled_from(["int64", "int64", "int32", "list",
-                                           "series", "strided"]))}
+                                           "series", "strided", "int16",
+                                           "uint32", "uint8"]))}
 
 
 def build(case):
@@ -119,6 +120,12 @@ def agg_oracle(case):
     ic = case.get("icont", "int64")
     if ic == "int32":
         idx_in = idx.astype(np.int32)
+    elif ic in ("int16", "uint32", "uint8"):
+        # (month / year numbers stored in a narrow or unsigned type)
+        if idx.min() >= np.iinfo(ic).min and idx.max() <= np.iinfo(ic).max:
+            idx_in = idx.astype(ic)
+        else:
+            ic, idx_in = "int64", idx
     elif ic == "list":
         idx_in = [int(i) for i in idx]
     elif ic == "series":
@@ -197,9 +204,11 @@ def agg_oracle(case):
             raise Violation("flathomogen does not preserve the group total")
 
     # ---- same index object edited in place, then used again
+    new = idx + np.arange(len(idx)) // 2 + 1       # other grouping
     if isinstance(idx_in, (np.ndarray, list)) and len(groups) >= 1 \
-            and idx.max() < 2**31 - 1 - 7:
-        new = idx + np.arange(len(idx)) // 2 + 1       # other grouping
+            and idx.max() < 2**31 - 1 - 7 and (
+                isinstance(idx_in, list)
+                or new.max() <= np.iinfo(idx_in.dtype).max):
         for i, v in enumerate(new):
             idx_in[i] = int(v)
         out2 = dutils.aggregate(idx_in, x.copy(), 0, len(x))
